@@ -556,7 +556,7 @@ func (conn *obfs4Conn) Write(b []byte) (int, error) {
 				if frameBuf.Len() < targetLen {
 					// There's not enough data buffered for the target write,
 					// so padding must be inserted.
-					if err = conn.padBurst(&frameBuf, targetLen); err != nil {
+					if err = conn.padToMultiple(&frameBuf, targetLen); err != nil {
 						return 0, err
 					}
 					if frameBuf.Len() != targetLen {
@@ -640,6 +640,39 @@ func (conn *obfs4Conn) padBurst(burst *bytes.Buffer, toPadTo int) error {
 		if err := conn.makePacket(burst, packetTypePayload, []byte{}, uint16(padLen)); err != nil {
 			return err
 		}
+	}
+
+	return nil
+}
+
+// padToMultiple pads a burst that is shorter than targetLen up to targetLen,
+// or when that would take less padding than a frame header, up to the next
+// multiple of targetLen that can be reached with whole frames.
+//
+// Unlike padBurst() the result can always be drained by writes of targetLen
+// bytes.  With padBurst() the paranoid IAT mode would overshoot by a frame
+// header plus a full segment, and for a length distribution that (nearly)
+// always samples the same value, flushing the excess would leave the same
+// too-small gap over and over again, causing Write() to emit padding forever.
+func (conn *obfs4Conn) padToMultiple(burst *bytes.Buffer, targetLen int) error {
+	padLen := targetLen - burst.Len()
+	for padLen < headerLength {
+		padLen += targetLen
+	}
+
+	for padLen > 0 {
+		frameLen := padLen
+		if frameLen > framing.MaximumSegmentLength {
+			frameLen = framing.MaximumSegmentLength
+			if padLen-frameLen < headerLength {
+				// Leave enough for the final frame.
+				frameLen -= headerLength
+			}
+		}
+		if err := conn.makePacket(burst, packetTypePayload, []byte{}, uint16(frameLen-headerLength)); err != nil {
+			return err
+		}
+		padLen -= frameLen
 	}
 
 	return nil
